@@ -319,6 +319,7 @@ bool guarded(const std::function<void()> &f) {
   memset(&tv, 0, sizeof tv);
   memset(&off, 0, sizeof off);
   tv.it_value.tv_sec = guard_budget_s;
+  guard_thread = pthread_self();
   if (sigsetjmp(guard_env, 1) == 0) {
     guard_armed = 1;
     setitimer(ITIMER_VIRTUAL, &tv, nullptr);
